@@ -481,6 +481,9 @@ def pop_guard(check: Check, repo: Repo, module: str = "language.visitor", func: 
         n_sites += 1
         facts = flow.facts_at(n)
         ok = any(f.kind == "cond" and f.pol and f.text == recv for f in facts)
+        if not ok:
+            from sa.guards import Constraints, Lin
+            ok = Constraints(facts).prove_ge0(Lin({f"len({recv})": 1}, -1)) is not None
         check.ob(rule, n, f"{unparse(n)} on {recv}", ok,
                  f"non-empty {recv} established on every path" if ok else
                  f"a path reaches this pop with {recv} possibly empty (no dominating test or push)")
